@@ -18,10 +18,14 @@ CHECKS = {
                 note='trusted: documented formulas in gvsim/model.py; floats compared with tolerance 1e-9; agent-on-Wall states excluded from the bump oracle; memory rewards judged on single-beacon-colour states'),
     'C02': dict(engine='sim', design='5/C02', technique='deterministic simulation with fault injection: seeded interleaving of several live environments (twins included) with an adversary that reseeds/draws/clears every process-global source; each client compared with its solo re-execution (debug flipped), global generators compared around every client op (tripwire), and restart in fresh interpreters under other PYTHONHASHSEED values',
                 note='trusted: history digests via the descriptor reader; YAML construction draws from the library generator before a seed exists and is not judged; interleaving granularity is one public API call'),
+    'C03': dict(engine='sim', design='5/C03', technique='deterministic simulation with fault injection: argument digests around every functional call, identity-graph disjointness of input and next state, caller-mutation faults on inputs/outputs, cache clearing / eviction pressure / foreign-client calls between a question and its repeat (question bank), history-free reference for memoised rewards',
+                note='trusted: descriptor reader and identity-graph walker; observation cells aliasing state cells and sharing of attribute-less objects are not judged; cache objects are never mutated by the simulated caller'),
     'C04': dict(engine='sim', design='5/C04', technique='deterministic simulation with fault injection: refinement of the stateful environment against a twin used only through the functional interface (M-env), generator lock-step after every op, arbitrary read patterns, resets mid-episode, rejected actions and global-state noise injected between step and read',
                 note='trusted: the twin is the same component code threaded functionally; representation oracle objects are built separately from the ones inside OuterEnv'),
     'C11': dict(engine='stochastic', design='5/C11', technique='deterministic simulation owning every random outcome: ScriptedRng (uniform / extreme / forced outcomes) and real seeded generators; outcome forcing re-executes a step for every resolution of its random choices; relational post-conditions with a search over obstacle turn orders',
                 note='trusted: ScriptedRng (differentially tested against numpy Generator at setup), the turn-order search (bounded to 6 obstacles, larger = undecided)'),
+    'C20': dict(engine='gymsim', design='5/C20', technique='deterministic simulation: gym-level clients (direct, gym.make(id).unwrapped, registry factory; with/without GymStateWrapper) refined op by op against a functionally threaded twin and oracle-built representations; representation switches injected at arbitrary points; adversary noise on global state',
+                note='trusted: the twin inner environment and separately constructed representation objects; indices outside range(n) and GymEnvironment.seed are not exercised'),
     'C08': dict(engine='sim', design='5/C08', technique='deterministic simulation: seeded op schedules over free-form worlds and shipped configurations, per-component and per-step refinement of the agent pose against a reference model, history invariant',
                 note='trusted: the reference model (gvsim/model.py) and the descriptor reader (gvsim/lib.py); teleport destinations are judged by C11, raising steps by C01'),
     'C09': dict(engine='sim', design='5/C09', technique='deterministic simulation: seeded op schedules, per-component object-inventory conservation and pick-and-drop case analysis against a reference model',
@@ -35,6 +39,7 @@ NOT_APPLICABLE = [
 ]
 
 ENGINES = {
+    'gymsim': ('gvsim/props/c20.py', 'gym-layer runner: real GymEnvironment / GymStateWrapper / OuterEnv over YAML-built GridWorlds, next to a functionally threaded twin'),
     'stochastic': ('gvsim/props/c11.py', 'scripted-generator runner: real GridWorld / transition functions with a ScriptedRng or a real seeded Generator, outcome forcing'),
     'sim': ('gvsim/sim.py', 'in-process simulator: clients = real environment stacks, adversary on process-global state, seeded scheduler at operation granularity, monitors against reference models'),
 }
